@@ -326,6 +326,60 @@ Proof.
   - rewrite !fold_panic. reflexivity.
 Qed.
 
+(* ---- records in either presentation, mixed within one collection ---- *)
+Definition rec (x : bool * list (bytes * Value)) : Value := if fst x then VMap (strkeys (snd x)) else VStruct (snd x).
+Definition bmode (b : bool) (t : Tracer) : Tracer := if b then fmode t else t.
+Definition obm (b : bool) (r : Outcome Tracer) : Outcome Tracer := if b then omode r else r.
+Definition tup (x : bool * list Value) : Value := if fst x then VTupleStruct (snd x) else VTuple (snd x).
+
+Lemma omode_idem r : omode (omode r) = omode r.
+Proof. destruct r as [t| |p]; [destruct t|..]; reflexivity. Qed.
+Lemma obm_obm a c r : obm a (obm c r) = obm (a || c) r.
+Proof. destruct a, c; cbn [obm orb]; try reflexivity. apply omode_idem. Qed.
+Lemma obm_err b : obm b Err = Err. Proof. destruct b; reflexivity. Qed.
+Lemma obm_panic b p : obm b (Panic p) = Panic p. Proof. destruct b; reflexivity. Qed.
+Lemma obm_ok b t : obm b (Ok t) = Ok (bmode b t). Proof. destruct b; reflexivity. Qed.
+
+Lemma trace_rec o d x b0 n m s fs : (fst x = true -> o_map_as_struct o = true) ->
+  trace o d (rec x) (bmode b0 (TStruct n m s fs)) = obm (fst x || b0) (trace o d (VStruct (snd x)) (TStruct n m s fs)).
+Proof.
+  intros Hm. destruct x as [b fa]. cbn [fst snd] in *. rewrite <- obm_obm. unfold rec. cbn [fst snd].
+  assert (E0 : trace o d (VStruct fa) (bmode b0 (TStruct n m s fs)) = obm b0 (trace o d (VStruct fa) (TStruct n m s fs))).
+  { destruct b0; cbn [bmode obm]; [apply trace_fmode|reflexivity]. }
+  destruct b; cbn [obm]; [rewrite (trace_map_is_struct o d fa _ (Hm eq_refl)), E0; reflexivity|exact E0].
+Qed.
+
+Lemma recs_from_struct o d : forall RS b0 n m s fs, (existsb fst RS = true -> o_map_as_struct o = true) ->
+  trace_seq' o d (map rec RS) (Ok (bmode b0 (TStruct n m s fs))) = obm (b0 || existsb fst RS) (trace_seq' o d (map VStruct (map snd RS)) (Ok (TStruct n m s fs))).
+Proof.
+  induction RS as [|x r IH]; intros b0 n m s fs Hm; [cbn [map existsb trace_seq' fold_left]; rewrite orb_false_r, obm_ok; reflexivity|].
+  cbn [map existsb] in *. rewrite !ts_cons, (trace_rec o d x b0 n m s fs) by (intros E; apply Hm; rewrite E; reflexivity).
+  destruct (trace o d (VStruct (snd x)) (TStruct n m s fs)) as [t1| |p] eqn:E.
+  - destruct (struct_stays o d _ n m s fs t1 E) as (m' & s' & fs' & ->). rewrite obm_ok, IH by (intros E2; apply Hm; rewrite E2; apply orb_true_r).
+    f_equal. destruct (fst x), b0, (existsb fst r); reflexivity.
+  - rewrite obm_err, !fold_err, obm_err. reflexivity.
+  - rewrite obm_panic, !fold_panic, obm_panic. reflexivity.
+Qed.
+
+Lemma recs_collection o d RS n0 : (existsb fst RS = true -> o_map_as_struct o = true) ->
+  trace_seq' o d (map rec RS) (Ok (TUnknown n0)) = obm (existsb fst RS) (trace_seq' o d (map VStruct (map snd RS)) (Ok (TUnknown n0))).
+Proof.
+  intros Hm. destruct RS as [|x r]; [reflexivity|].
+  assert (E : trace o d (rec x) (TUnknown n0) = trace o d (rec x) (TStruct n0 false 0 [])).
+  { destruct x as [[|] fa]; unfold rec; cbn [fst snd].
+    - assert (Hm1 : o_map_as_struct o = true) by (apply Hm; reflexivity). rewrite !(trace_map_is_struct o d fa _ Hm1), trace_struct_fresh. reflexivity.
+    - apply trace_struct_fresh. }
+  cbn [map]. rewrite !ts_cons, E, trace_struct_fresh, <- !ts_cons.
+  change (TStruct n0 false 0 []) with (bmode false (TStruct n0 false 0 [])) at 1. apply (recs_from_struct o d (x :: r) false n0 false 0 [] Hm).
+Qed.
+
+Lemma tups_collection o d : forall TS r, trace_seq' o d (map tup TS) r = trace_seq' o d (map VTuple (map snd TS)) r.
+Proof.
+  induction TS as [|x rest IH]; intros r; [reflexivity|].
+  change (trace_seq' o d (map tup rest) (do t <- r ;; trace o d (tup x) t) = trace_seq' o d (map VTuple (map snd rest)) (do t <- r ;; trace o d (VTuple (snd x)) t)).
+  rewrite IH. f_equal. destruct x as [[|] l]; reflexivity.
+Qed.
+
 (* ---- the class of collections: homogeneous nested data ---- *)
 Section Order.
   Variable o : Opts.
@@ -336,11 +390,10 @@ Section Order.
     | 0 => False
     | S n' =>
       (exists ls, cores vs = map VSeq ls /\ Hom n' (concat ls)) \/
-      (exists SS, cores vs = map VStruct SS /\ Forall (fun fa => NoDup (map fst fa)) SS /\ forall k, Hom n' (vals k SS)) \/
-      (o_map_as_struct o = true /\
-       exists SS, cores vs = map (fun fa => VMap (strkeys fa)) SS /\ Forall (fun fa => NoDup (map fst fa)) SS /\ forall k, Hom n' (vals k SS)) \/
+      (exists RS, cores vs = map rec RS /\ (existsb fst RS = true -> o_map_as_struct o = true) /\
+                  Forall (fun fa => NoDup (map fst fa)) (map snd RS) /\ forall k, Hom n' (vals k (map snd RS))) \/
       (o_map_as_struct o = false /\ exists kvss, cores vs = map VMap kvss /\ Hom n' (mkeys kvss) /\ Hom n' (mvals kvss)) \/
-      (exists ls, (cores vs = map VTuple ls \/ cores vs = map VTupleStruct ls) /\ forall i, Hom n' (col i ls)) \/
+      (exists TS, cores vs = map tup TS /\ forall i, Hom n' (col i (map snd TS))) \/
       (Forall (fun c => vpl c <> None) (cores vs) /\ forall i, Hom n' (map snd (wsel i (pls (cores vs)))))
     end.
 
@@ -410,7 +463,7 @@ Section Order.
     induction n as [|n IH]; intros d vs vs' t t' Hh Hp H1 H2.
     - destruct Hh as [(l & Hl)|[]]. apply (leaf_case d vs vs' l t t' Hl Hp H1 H2).
     - pose proof (cores_perm vs vs' Hp) as Hcp. pose proof (existsb_perm nullish vs vs' Hp) as Hnp.
-      destruct Hh as [(l & Hl)|[(ls & Hc & Hh)|[(SS & Hc & Hnd & Hh)|[(Hm & SS & Hc & Hnd & Hh)|[(Hm & kvss & Hc & Hhk & Hhv)|[(ls & Hc & Hh)|(HF & Hh)]]]]]].
+      destruct Hh as [(l & Hl)|[(ls & Hc & Hh)|[(RS & Hc & Hm & Hnd & Hh)|[(Hm & kvss & Hc & Hhk & Hhv)|[(TS & Hc & Hh)|(HF & Hh)]]]]].
       + apply (leaf_case d vs vs' l t t' Hl Hp H1 H2).
       + (* sequences *)
         rewrite Hc in Hcp. destruct (Permutation_map_inv _ _ (Permutation_sym Hcp)) as (ls' & Hc' & Hpl).
@@ -424,52 +477,39 @@ Section Order.
         destruct (seq_projection o d (l0 :: r0) false u ltac:(discriminate) E1) as (it & -> & Hi).
         destruct (seq_projection o d ls' false u' Hne' E2) as (it' & -> & Hi').
         constructor. apply (IH (S d) (concat (l0 :: r0)) (concat ls') it it' Hh (concat_perm _ _ Hpl) Hi Hi').
-      + (* records *)
-        rewrite Hc in Hcp. destruct (Permutation_map_inv _ _ (Permutation_sym Hcp)) as (SS' & Hc' & Hpl).
-        assert (Hnd' : Forall (fun fa => NoDup (map fst fa)) SS') by (rewrite Forall_forall in *; intros fa Hin; apply Hnd, (Permutation_in _ (Permutation_sym Hpl) Hin)).
-        destruct SS as [|fa0 r0].
+      + (* records, presented as structs or as maps with string keys *)
+        rewrite Hc in Hcp. destruct (Permutation_map_inv _ _ (Permutation_sym Hcp)) as (RS' & Hc' & Hpl).
+        pose proof (Permutation_map snd Hpl) as Hps. pose proof (existsb_perm fst RS RS' Hpl) as Hbp.
+        assert (Hnd' : Forall (fun fa => NoDup (map fst fa)) (map snd RS')) by (apply (Permutation_Forall Hps Hnd)).
+        assert (Hm' : existsb fst RS' = true -> o_map_as_struct o = true) by (rewrite <- Hbp; exact Hm).
+        destruct RS as [|x0 r0].
         { destruct (cores_nil_atoms o vs Hc) as (l & Hl). apply (leaf_case d vs vs' l t t' Hl Hp H1 H2). }
-        assert (Hne' : SS' <> []) by (intros ->; apply Permutation_sym, Permutation_nil in Hpl; discriminate).
-        rewrite (strip0 d vs) in H1 by (rewrite Hc; first [apply containers_map; reflexivity|discriminate]).
-        rewrite (strip0 d vs') in H2 by (rewrite Hc'; first [apply containers_map; reflexivity|destruct SS'; [congruence|discriminate]]).
+        assert (Hne' : RS' <> []) by (intros ->; apply Permutation_sym, Permutation_nil in Hpl; discriminate).
+        assert (Hrc : forall a, is_container (rec a) = true) by (intros [[|] ?]; reflexivity).
+        rewrite (strip0 d vs) in H1 by (rewrite Hc; first [apply containers_map; exact Hrc|discriminate]).
+        rewrite (strip0 d vs') in H2 by (rewrite Hc'; first [apply containers_map; exact Hrc|destruct RS'; [congruence|discriminate]]).
         rewrite Hc in H1. rewrite Hc', <- Hnp in H2.
-        destruct (omk_ok_inv _ _ _ H1) as (u & E1 & ->). destruct (omk_ok_inv _ _ _ H2) as (u' & E2 & ->). apply teq_mk.
-        destruct (record_projection o d (fa0 :: r0) false u ltac:(discriminate) Hnd E1) as (fs1 & -> & P1).
-        destruct (record_projection o d SS' false u' Hne' Hnd' E2) as (fs2 & -> & P2).
-        apply teq_struct.
-        -- intros k. specialize (P1 k). specialize (P2 k). pose proof (vals_perm k _ _ Hpl) as Hvp.
-           destruct (fget2 k fs1) as [[t1 l1]|], (fget2 k fs2) as [[t2 l2]|]; split; intros Hx; try discriminate; try reflexivity.
-           ++ destruct P1 as (Hne & _). rewrite P2 in Hvp. apply Permutation_sym, Permutation_nil in Hvp. contradiction.
-           ++ destruct P2 as (Hne & _). rewrite P1 in Hvp. apply Permutation_nil in Hvp. contradiction.
-        -- intros k t1 l1 t2 l2 G1 G2. specialize (P1 k). specialize (P2 k). rewrite G1 in P1. rewrite G2 in P2.
-           destruct P1 as (_ & T1 & R1 & ->). destruct P2 as (_ & T2 & R2 & ->).
-           rewrite (missing_perm k _ _ Hpl). apply teq_mk.
-           apply (IH _ (vals k (fa0 :: r0)) (vals k SS') T1 T2 (Hh k) (vals_perm k _ _ Hpl) R1 R2).
-      + (* records presented as maps with string keys *)
-        rewrite Hc in Hcp. destruct (Permutation_map_inv _ _ (Permutation_sym Hcp)) as (SS' & Hc' & Hpl).
-        assert (Hnd' : Forall (fun fa => NoDup (map fst fa)) SS') by (rewrite Forall_forall in *; intros fa Hin; apply Hnd, (Permutation_in _ (Permutation_sym Hpl) Hin)).
-        destruct SS as [|fa0 r0].
-        { destruct (cores_nil_atoms o vs Hc) as (l & Hl). apply (leaf_case d vs vs' l t t' Hl Hp H1 H2). }
-        assert (Hne' : SS' <> []) by (intros ->; apply Permutation_sym, Permutation_nil in Hpl; discriminate).
-        rewrite (strip0 d vs) in H1 by (rewrite Hc; first [apply containers_map; reflexivity|discriminate]).
-        rewrite (strip0 d vs') in H2 by (rewrite Hc'; first [apply containers_map; reflexivity|destruct SS'; [congruence|discriminate]]).
-        rewrite Hc in H1. rewrite Hc', <- Hnp in H2.
-        rewrite (maps_collection o d (fa0 :: r0) Hm ltac:(discriminate)) in H1. rewrite (maps_collection o d SS' Hm Hne') in H2.
+        rewrite (recs_collection o d (x0 :: r0) false Hm) in H1. rewrite (recs_collection o d RS' false Hm'), <- Hbp in H2.
         destruct (omk_ok_inv _ _ _ H1) as (w & E1 & ->). destruct (omk_ok_inv _ _ _ H2) as (w' & E2 & ->). apply teq_mk.
-        destruct (trace_seq' o d (map VStruct (fa0 :: r0)) (Ok (TUnknown false))) as [u| |p] eqn:F1; try discriminate E1.
-        destruct (trace_seq' o d (map VStruct SS') (Ok (TUnknown false))) as [u'| |p] eqn:F2; try discriminate E2.
-        cbn [omode] in E1, E2. injection E1 as <-. injection E2 as <-.
-        destruct (record_projection o d (fa0 :: r0) false u ltac:(discriminate) Hnd F1) as (fs1 & -> & P1).
-        destruct (record_projection o d SS' false u' Hne' Hnd' F2) as (fs2 & -> & P2).
-        cbn [fmode]. apply teq_mstruct.
-        -- intros k. specialize (P1 k). specialize (P2 k). pose proof (vals_perm k _ _ Hpl) as Hvp.
-           destruct (fget2 k fs1) as [[t1 l1]|], (fget2 k fs2) as [[t2 l2]|]; split; intros Hx; try discriminate; try reflexivity.
-           ++ destruct P1 as (Hne & _). rewrite P2 in Hvp. apply Permutation_sym, Permutation_nil in Hvp. contradiction.
-           ++ destruct P2 as (Hne & _). rewrite P1 in Hvp. apply Permutation_nil in Hvp. contradiction.
-        -- intros k t1 l1 t2 l2 G1 G2. specialize (P1 k). specialize (P2 k). rewrite G1 in P1. rewrite G2 in P2.
-           destruct P1 as (_ & T1 & R1 & ->). destruct P2 as (_ & T2 & R2 & ->).
-           rewrite (missing_perm k _ _ Hpl). apply teq_mk.
-           apply (IH _ (vals k (fa0 :: r0)) (vals k SS') T1 T2 (Hh k) (vals_perm k _ _ Hpl) R1 R2).
+        set (SS := map snd (x0 :: r0)) in *. set (SS' := map snd RS') in *. set (bb := existsb fst (x0 :: r0)) in *.
+        assert (HneS : SS <> []) by (unfold SS; discriminate).
+        assert (HneS' : SS' <> []) by (unfold SS'; destruct RS'; [congruence|discriminate]).
+        destruct (trace_seq' o d (map VStruct SS) (Ok (TUnknown false))) as [u| |p] eqn:F1; [|rewrite obm_err in E1; discriminate|rewrite obm_panic in E1; discriminate].
+        destruct (trace_seq' o d (map VStruct SS') (Ok (TUnknown false))) as [u'| |p] eqn:F2; [|rewrite obm_err in E2; discriminate|rewrite obm_panic in E2; discriminate].
+        rewrite obm_ok in E1, E2. injection E1 as <-. injection E2 as <-.
+        destruct (record_projection o d SS false u HneS Hnd F1) as (fs1 & -> & P1).
+        destruct (record_projection o d SS' false u' HneS' Hnd' F2) as (fs2 & -> & P2).
+        assert (Hnone : forall k, fget2 k fs1 = None <-> fget2 k fs2 = None).
+        { intros k. specialize (P1 k). specialize (P2 k). pose proof (vals_perm k _ _ Hps) as Hvp. fold SS SS' in Hvp.
+          destruct (fget2 k fs1) as [[t1 l1]|], (fget2 k fs2) as [[t2 l2]|]; split; intros Hx; try discriminate; try reflexivity.
+          - destruct P1 as (Hne & _). rewrite P2 in Hvp. apply Permutation_sym, Permutation_nil in Hvp. contradiction.
+          - destruct P2 as (Hne & _). rewrite P1 in Hvp. apply Permutation_nil in Hvp. contradiction. }
+        assert (Hsome : forall k t1 l1 t2 l2, fget2 k fs1 = Some (t1, l1) -> fget2 k fs2 = Some (t2, l2) -> teq t1 t2).
+        { intros k t1 l1 t2 l2 G1 G2. specialize (P1 k). specialize (P2 k). rewrite G1 in P1. rewrite G2 in P2.
+          destruct P1 as (_ & T1 & R1 & ->). destruct P2 as (_ & T2 & R2 & ->).
+          rewrite (missing_perm k _ _ Hps). apply teq_mk.
+          apply (IH _ (vals k SS) (vals k SS') T1 T2 (Hh k) (vals_perm k _ _ Hps) R1 R2). }
+        destruct bb; cbn [bmode fmode]; [apply teq_mstruct|apply teq_struct]; assumption.
       + (* maps traced as maps: a key position and a value position *)
         rewrite Hc in Hcp. destruct (Permutation_map_inv _ _ (Permutation_sym Hcp)) as (kvss' & Hc' & Hpl).
         destruct kvss as [|kv0 r0].
@@ -485,31 +525,20 @@ Section Order.
         -- apply (IH (S d) (mkeys (kv0 :: r0)) (mkeys kvss') kt kt' Hhk (Permutation_flat_map _ Hpl) Hk Hk').
         -- apply (IH (S d) (mvals (kv0 :: r0)) (mvals kvss') vt vt' Hhv (Permutation_flat_map _ Hpl) Hv Hv').
       + (* tuples and tuple structs: one position per index *)
-        destruct Hc as [Hc|Hc].
-        { rewrite Hc in Hcp. destruct (Permutation_map_inv _ _ (Permutation_sym Hcp)) as (ls' & Hc' & Hpl).
-          destruct ls as [|l0 r0].
-          { destruct (cores_nil_atoms o vs Hc) as (l & Hl). apply (leaf_case d vs vs' l t t' Hl Hp H1 H2). }
-          assert (Hne' : ls' <> []) by (intros ->; apply Permutation_sym, Permutation_nil in Hpl; discriminate).
-          rewrite (strip0 d vs) in H1 by (rewrite Hc; first [apply containers_map; reflexivity|discriminate]).
-          rewrite (strip0 d vs') in H2 by (rewrite Hc'; first [apply containers_map; reflexivity|destruct ls'; [congruence|discriminate]]).
-          rewrite Hc in H1. rewrite Hc', <- Hnp in H2.
-          destruct (omk_ok_inv _ _ _ H1) as (u & E1 & ->). destruct (omk_ok_inv _ _ _ H2) as (u' & E2 & ->). apply teq_mk.
-          destruct (tuple_projection o d (l0 :: r0) false u ltac:(discriminate) E1) as (F & -> & Hlen & Hcol).
-          destruct (tuple_projection o d ls' false u' Hne' E2) as (F' & -> & Hlen' & Hcol').
-          apply teq_tuple; [rewrite Hlen, Hlen'; apply maxlen_perm, Hpl|].
-          intros i. apply (IH (S d) (col i (l0 :: r0)) (col i ls') _ _ (Hh i) (col_perm i _ _ Hpl) (Hcol i) (Hcol' i)). }
-        { rewrite Hc in Hcp. destruct (Permutation_map_inv _ _ (Permutation_sym Hcp)) as (ls' & Hc' & Hpl).
-          destruct ls as [|l0 r0].
-          { destruct (cores_nil_atoms o vs Hc) as (l & Hl). apply (leaf_case d vs vs' l t t' Hl Hp H1 H2). }
-          assert (Hne' : ls' <> []) by (intros ->; apply Permutation_sym, Permutation_nil in Hpl; discriminate).
-          rewrite (strip0 d vs) in H1 by (rewrite Hc; first [apply containers_map; reflexivity|discriminate]).
-          rewrite (strip0 d vs') in H2 by (rewrite Hc'; first [apply containers_map; reflexivity|destruct ls'; [congruence|discriminate]]).
-          rewrite Hc in H1. rewrite Hc', <- Hnp in H2. rewrite tuple_structs in H1, H2.
-          destruct (omk_ok_inv _ _ _ H1) as (u & E1 & ->). destruct (omk_ok_inv _ _ _ H2) as (u' & E2 & ->). apply teq_mk.
-          destruct (tuple_projection o d (l0 :: r0) false u ltac:(discriminate) E1) as (F & -> & Hlen & Hcol).
-          destruct (tuple_projection o d ls' false u' Hne' E2) as (F' & -> & Hlen' & Hcol').
-          apply teq_tuple; [rewrite Hlen, Hlen'; apply maxlen_perm, Hpl|].
-          intros i. apply (IH (S d) (col i (l0 :: r0)) (col i ls') _ _ (Hh i) (col_perm i _ _ Hpl) (Hcol i) (Hcol' i)). }
+        rewrite Hc in Hcp. destruct (Permutation_map_inv _ _ (Permutation_sym Hcp)) as (TS' & Hc' & Hpl).
+        pose proof (Permutation_map snd Hpl) as Hps.
+        destruct TS as [|x0 r0].
+        { destruct (cores_nil_atoms o vs Hc) as (l & Hl). apply (leaf_case d vs vs' l t t' Hl Hp H1 H2). }
+        assert (Hne' : TS' <> []) by (intros ->; apply Permutation_sym, Permutation_nil in Hpl; discriminate).
+        assert (Htc : forall a, is_container (tup a) = true) by (intros [[|] ?]; reflexivity).
+        rewrite (strip0 d vs) in H1 by (rewrite Hc; first [apply containers_map; exact Htc|discriminate]).
+        rewrite (strip0 d vs') in H2 by (rewrite Hc'; first [apply containers_map; exact Htc|destruct TS'; [congruence|discriminate]]).
+        rewrite Hc, tups_collection in H1. rewrite Hc', tups_collection, <- Hnp in H2.
+        destruct (omk_ok_inv _ _ _ H1) as (u & E1 & ->). destruct (omk_ok_inv _ _ _ H2) as (u' & E2 & ->). apply teq_mk.
+        destruct (tuple_projection o d (map snd (x0 :: r0)) false u ltac:(discriminate) E1) as (F & -> & Hlen & Hcol).
+        destruct (tuple_projection o d (map snd TS') false u' ltac:(destruct TS'; [congruence|discriminate]) E2) as (F' & -> & Hlen' & Hcol').
+        apply teq_tuple; [rewrite Hlen, Hlen'; apply maxlen_perm, Hps|].
+        intros i. apply (IH (S d) (col i (map snd (x0 :: r0))) (col i (map snd TS')) _ _ (Hh i) (col_perm i _ _ Hps) (Hcol i) (Hcol' i)).
       + (* enum variants: one position per variant *)
         destruct (cores vs) as [|c0 r0] eqn:Hc.
         { destruct (cores_nil_atoms o vs Hc) as (l & Hl). apply (leaf_case d vs vs' l t t' Hl Hp H1 H2). }
